@@ -451,6 +451,14 @@ pub struct DegCase {
     /// the dumping thread has every signal blocked
     #[serde(default)]
     pub signals_blocked: bool,
+    /// files the dumper cannot open (vcore::faultfs bit mask over cpuinfo, status, release files,
+    /// cmdline, environ, auxv, limits, comm, maps, mem)
+    #[serde(default)]
+    pub unopenable: Option<u16>,
+    /// ptrace register requests the kernel refuses to the dumping thread (seccomp; bits: GETREGSET
+    /// general-purpose / floating point, GETREGS, GETFPREGS, PEEKUSER)
+    #[serde(default)]
+    pub refused_ptrace: Option<u8>,
 }
 
 pub fn check_degenerate(c: &DegCase) -> Verdict {
@@ -580,6 +588,15 @@ pub fn check_degenerate(c: &DegCase) -> Verdict {
         classes.push("dumper:signals-blocked".to_string());
     }
     let out = match c.fd_budget {
+        None if c.unopenable.is_none() && c.refused_ptrace.is_some() => {
+            classes.push("dumper:ptrace-register-requests-refused".to_string());
+            with_watchdog(30.0, || with_refused_regsets(c.refused_ptrace.unwrap() & 31, || run_dump(&mut w, &mut dest)))
+        }
+        None if c.unopenable.is_some() => {
+            let m = c.unopenable.unwrap() as u32 & 0x3ff;
+            classes.push("dumper:files-unopenable".to_string());
+            with_watchdog(30.0, || crate::vcore::faultfs::with_denied_files(m, (m >> 10) & 3, || run_dump(&mut w, &mut dest)).0)
+        }
         Some(k) => {
             classes.push(format!("dumper:descriptor-budget-{}", (k % 12).min(9)));
             with_watchdog(30.0, || with_fd_budget(k % 12, || run_dump(&mut w, &mut dest)))
@@ -731,9 +748,9 @@ pub fn run(ctx: &mut LaneCtx) {
         SubSpec {
             name: "degenerate-targets",
             cases: (640, 20_000),
-            rule: "target state {killed and not reaped (zombie: nothing can be stopped), gone (no such process), every thread held by another tracer (nothing can be attached), already group-stopped, ordinary} with 0..26 parked threads x size limit {none, 0, 1, 0..200000, around 64 KiB, u64::MAX} x sanitize x skip-unreferenced with principal address {unmapped, in a stack, 0, top} x crash context {none, in mappings, unmapped, top of the address space} x app memory x stop timeout {generous, 0, 1 ms, Duration::MAX} x blamed thread main/other x state of the dumping process {may open only 0..11 more descriptors, all signals blocked}; oracle = the request returns Ok or Err within the watchdog, no panic; every case non-trivial; distinct = hash of case",
-            strategy: ((0u8..5, prop_oneof![3 => 0u8..6, 1 => 19u8..27], 0u8..6, any::<u32>(), any::<bool>()), (0u8..5, 0u8..4, any::<bool>(), 0u8..4, any::<bool>()), (proptest::option::weighted(0.35, 0u8..12), proptest::bool::weighted(0.25)))
-                .prop_map(|((state, threads, limit, limit_val, sanitize), (skip, crash, app, stop_timeout, blamed_other), (fd_budget, signals_blocked))| DegCase { state, threads, limit, limit_val, sanitize, skip, crash, app, stop_timeout, blamed_other, fd_budget, signals_blocked })
+            rule: "target state {killed and not reaped (zombie: nothing can be stopped), gone (no such process), every thread held by another tracer (nothing can be attached), already group-stopped, ordinary} with 0..26 parked threads x size limit {none, 0, 1, 0..200000, around 64 KiB, u64::MAX} x sanitize x skip-unreferenced with principal address {unmapped, in a stack, 0, top} x crash context {none, in mappings, unmapped, top of the address space} x app memory x stop timeout {generous, 0, 1 ms, Duration::MAX} x blamed thread main/other x state of the dumping process {may open only 0..11 more descriptors, all signals blocked, any subset of ten families of /proc and release files unopenable, any subset of the five ptrace register requests refused by the kernel}; oracle = the request returns Ok or Err within the watchdog, no panic; every case non-trivial; distinct = hash of case",
+            strategy: ((0u8..5, prop_oneof![3 => 0u8..6, 1 => 19u8..27], 0u8..6, any::<u32>(), any::<bool>()), (0u8..5, 0u8..4, any::<bool>(), 0u8..4, any::<bool>()), (proptest::option::weighted(0.35, 0u8..12), proptest::bool::weighted(0.25), proptest::option::weighted(0.3, any::<u16>()), proptest::option::weighted(0.3, 1u8..32)))
+                .prop_map(|((state, threads, limit, limit_val, sanitize), (skip, crash, app, stop_timeout, blamed_other), (fd_budget, signals_blocked, unopenable, refused_ptrace))| DegCase { state, threads, limit, limit_val, sanitize, skip, crash, app, stop_timeout, blamed_other, fd_budget, signals_blocked, unopenable, refused_ptrace })
                 .boxed(),
             max_shrink_iters: 100,
             log_current: true,
